@@ -414,7 +414,7 @@ package task
 // them is under contract for the dry flag (or is never reached by the query modes). A new call anywhere else in
 // the repository fails here, whatever function it is put in.
 //@ define FSWRITERS = os.MkdirAll os.Mkdir os.WriteFile os.Remove os.RemoveAll os.Create os.OpenFile os.Rename os.Chtimes os.Chmod os.Chown os.Symlink os.Link os.MkdirTemp os.CreateTemp os.Truncate
-//@ callers $FSWRITERS : (*Executor).mkdir InitTaskfile release.* task.run fingerprint.(*ChecksumChecker).IsUpToDate fingerprint.(*ChecksumChecker).OnError fingerprint.(*TimestampChecker).IsUpToDate fingerprint.(*TimestampChecker).OnError taskfile.(*CacheNode).* ast.(*TaskfileGraph).Visualize   [C12]
+//@ callers $FSWRITERS : (*Executor).mkdir InitTaskfile release.* task.run fingerprint.(*ChecksumChecker).IsUpToDate fingerprint.(*ChecksumChecker).OnError fingerprint.(*TimestampChecker).IsUpToDate fingerprint.(*TimestampChecker).OnError taskfile.(*CacheNode).* ast.(*TaskfileGraph).Visualize   [C12,C04]
 //@ callers execext.RunCommand : (*Executor).runCommand (*Compiler).HandleDynamicVar (*Executor).areTaskPreconditionsMet fingerprint.(*StatusChecker).IsUpToDate   [C12]
 //@ callers (*Executor).mkdir : (*Executor).RunTask   [C12]
 
@@ -532,9 +532,9 @@ package task
 // executions, the watcher's directory set, the defaulted sorter; the cache of dynamic variables, which is keyed
 // by command and directory). A memo added anywhere else - another field, a package-level variable - makes what a
 // task sees depend on which tasks were compiled before it, and fails here without any annotation of the new code.
-//@ state_fields Executor: executionHashes watchedDirs TaskSorter except NewExecutor *.ApplyToExecutor (*Executor).setup* (*Executor).getRootNode (*Executor).readTaskfile   [C11]
-//@ state_fields Compiler: dynamicCache except (*Executor).setupCompiler                                           [C11]
-//@ state_fields globals: except init* experiments.Parse experiments.New                                           [C11]
+//@ state_fields Executor: executionHashes watchedDirs TaskSorter except NewExecutor *.ApplyToExecutor (*Executor).setup* (*Executor).getRootNode (*Executor).readTaskfile   [C11,C18]
+//@ state_fields Compiler: dynamicCache except (*Executor).setupCompiler                                           [C11,C18]
+//@ state_fields globals: except init* experiments.Parse experiments.New                                           [C11,C18]
 
 // ---- C11: a dynamic variable is looked up, evaluated and recorded in ONE critical section, so that tasks
 // asking for the same sh: text concurrently get the same value as when they run alone
